@@ -98,6 +98,23 @@ def static_findings(repo):
 
 
 # ----------------------------------------------------------------------------- dynamic half
+def json_config(ini):
+    """the same configuration in the deprecated JSON format (rejected with a pointer to rp2_config, after schema validation:
+    every header column entry goes through the JSON schema)"""
+    import configparser
+    import json
+    cp = configparser.ConfigParser()
+    cp.read_string(ini)
+    d = {}
+    for sec in cp.sections():
+        if sec.endswith("_header"):
+            d[sec] = {k: int(v) for k, v in cp[sec].items()}
+        elif sec == "general":
+            for k, v in cp[sec].items():
+                d[k] = [x.strip() for x in v.split(",")]
+    return json.dumps(d, indent=1)
+
+
 def invalid_jobs(tier, mm):
     """runs on invalid inputs: the confinement must hold on every error path too"""
     rng = core.Rng(core.seed(), 18)
@@ -111,6 +128,7 @@ def invalid_jobs(tier, mm):
             jobs.append(dict(base, kind="inv-corrupt-ods", corrupt_ods=True))
             jobs.append(dict(base, kind="inv-bad-ini-section", ini_text=l6.ini_text(inp) + "\n[bogus]\nx = 1\n"))
             jobs.append(dict(base, kind="inv-json-config", ini_text='{"assets": ["BTC"]}'))
+            jobs.append(dict(base, kind="inv-json-config-full", ini_text=json_config(l6.ini_text(inp))))
             jobs.append(dict(base, kind="inv-unknown-holder", ini_text=l6.ini_text(inp, holders=["Nobody"])))
             jobs.append(dict(base, kind="inv-missing-sheet", ini_text=l6.ini_text(inp, assets=[a["asset"] for a in inp["assets"]] + ["DOGE"])))
             jobs.append(dict(base, kind="inv-unknown-asset-option", opts={"lang": lang, "asset": "NOPE"}))
